@@ -180,15 +180,16 @@ func NewHTTPClient(options ...HTTPClientOptionF) (*HTTPClient, error) {
 		log:                 log.L(),
 	}
 
-	// updates topology with redirect body
-	client.httpClient.CheckRedirect = newCheckRedirect(client)
-
 	// Run the options on the client
 	for _, option := range options {
 		if err := option(client); err != nil {
 			return nil, err
 		}
 	}
+
+	// updates topology with redirect body: installed on the http client the
+	// options selected (SetHttpClient replaces the default one)
+	client.httpClient.CheckRedirect = newCheckRedirect(client)
 	// configure retrier
 	_ = client.setRetrier(client.maxRetries)
 
